@@ -32,7 +32,7 @@ class Job:
     def __init__(self, name, src, sources, enforce=None, replace=(), entry='harness',
                  config='le', loop_contracts=None, owners=None, clause_map=None,
                  timeout=600, solver=None, extra_cbmc=(), extra_cc=(), canary=True,
-                 function=None, kind='', replay=None, bounded=None, includes=(),
+                 function=None, kind='', replay=None, bounded=None, includes=(), ignore_funcs=(),
                  assumptions=(), unwindset=None, no_dfcc=False, obj_bits=None):
         self.name = name
         self.src = src                  # text of the harness translation unit
@@ -54,6 +54,7 @@ class Job:
         self.replay = replay            # info for native replay generation
         self.bounded = bounded          # None or text describing the bound (never counted as proof)
         self.includes = list(includes)
+        self.ignore_funcs = set(ignore_funcs)
         self.assumptions = list(assumptions)
         self.unwindset = unwindset
         self.no_dfcc = no_dfcc          # plain harness with assertions only (pure spec lemmas)
@@ -285,9 +286,12 @@ def run_job(job, workroot, keep=False):
                         sl.get('function'))
         cls, tag = classify(pr, job, hfile)
         pr.cls, pr.tag = cls, tag
+        if pr.func in job.ignore_funcs:
+            continue                      # other entry points sharing the TU (unreachable here)
         if cls == 'canary':
             canary_seen = True
-            res.canary_ok = (pr.status == 'FAILURE')
+            ok = (pr.status == 'FAILURE')     # every canary must be reachable
+            res.canary_ok = ok if res.canary_ok is None else (res.canary_ok and ok)
             continue
         res.props.append(pr)
     if job.canary:
@@ -339,9 +343,8 @@ def trace_for(job, res, prop_name, timeout=300):
                             lhs = st.get('lhs', '')
                             if lhs.startswith('vp_w'):
                                 v = st.get('value', {})
-                                data = v.get('data')
-                                if data is not None:
-                                    wit[lhs] = data
+                                if v:
+                                    wit[lhs] = v
     return wit, ''
 
 
